@@ -3,6 +3,7 @@ from functools import partial
 import numpy as onp
 
 from autograd.extend import SparseObject, VJPNode, defvjp, defvjp_argnum, primitive, register_notrace, vspace
+from autograd.tracer import getval
 
 from ..util import func
 from . import numpy_wrapper as anp
@@ -186,14 +187,31 @@ defvjp(
     anp.sinc,
     lambda ans, x: lambda g: g * (anp.cos(anp.pi * x) * anp.pi * x - anp.sin(anp.pi * x)) / (anp.pi * x**2),
 )
-defvjp(anp.reshape, lambda ans, x, shape, order=None: lambda g: anp.reshape(g, anp.shape(x), order=order))
+
+
+def argument_order(x, order):
+    # order="A" means Fortran order iff the *argument* is Fortran contiguous (and not C
+    # contiguous). A cotangent or tangent has its own memory layout, which must not decide.
+    if order in ("A", "a"):
+        x = getval(x)
+        return "F" if isinstance(x, onp.ndarray) and onp.isfortran(x) else "C"
+    return order
+
+
+defvjp(
+    anp.reshape,
+    lambda ans, x, shape, order=None: lambda g: anp.reshape(g, anp.shape(x), order=argument_order(x, order)),
+)
 defvjp(anp.roll, lambda ans, x, shift, axis=None: lambda g: anp.roll(g, -shift, axis=axis))
 defvjp(anp.array_split, lambda ans, ary, idxs, axis=0: lambda g: anp.concatenate(g, axis=axis))
 defvjp(anp.split, lambda ans, ary, idxs, axis=0: lambda g: anp.concatenate(g, axis=axis))
 defvjp(anp.vsplit, lambda ans, ary, idxs: lambda g: anp.concatenate(g, axis=0))
 defvjp(anp.hsplit, lambda ans, ary, idxs: lambda g: anp.concatenate(g, axis=1))
 defvjp(anp.dsplit, lambda ans, ary, idxs: lambda g: anp.concatenate(g, axis=2))
-defvjp(anp.ravel, lambda ans, x, order=None: lambda g: anp.reshape(g, anp.shape(x), order=order))
+defvjp(
+    anp.ravel,
+    lambda ans, x, order=None: lambda g: anp.reshape(g, anp.shape(x), order=argument_order(x, order)),
+)
 defvjp(anp.expand_dims, lambda ans, x, axis: lambda g: anp.reshape(g, anp.shape(x)))
 defvjp(anp.squeeze, lambda ans, x, axis=None: lambda g: anp.reshape(g, anp.shape(x)))
 
